@@ -162,6 +162,8 @@ pub enum TokFault {
     /// byte string for the same residue; RFC 8032 demands S < L). P-384 (v3): add the group order n to
     /// the half that still fits in 48 bytes afterwards, if any.
     SigAddOrder { k: u8 },
+    /// text-level: insert `chars` into the payload segment, `back` characters before its end
+    TextInsertInPayload { back: usize, chars: String },
     /// text-level: the `nth` '-' or '_' of the text becomes its standard-alphabet counterpart '+' / '/'
     TextStdAlphabetAt { nth: usize },
     /// text-level: overwrite as many characters from `at` on as the UTF-8 encoding of `ch` has bytes
@@ -516,6 +518,18 @@ pub fn apply_tok_fault(d: &mut Delivered, f: &TokFault) -> bool {
                 }
             }
         }
+        TokFault::TextInsertInPayload { back, chars } => {
+            // header is "vN[suffix].purpose."; the payload segment runs to the next '.' or the end
+            let mut dots = d.text.match_indices('.').map(|(i, _)| i);
+            if let (Some(_), Some(second)) = (dots.next(), dots.next()) {
+                let start = second + 1;
+                let end = d.text[start..].find('.').map(|i| start + i).unwrap_or(d.text.len());
+                if end - start >= *back && !chars.is_empty() {
+                    d.text.insert_str(end - back, chars);
+                    changed = true;
+                }
+            }
+        }
         TokFault::TextStdAlphabetAt { nth } => {
             let mut seen = 0usize;
             let mut out = String::with_capacity(d.text.len());
@@ -645,6 +659,7 @@ impl TokFault {
             TokFault::TextReplace { .. } => "text-replace",
             TokFault::TextOverwriteBytes { .. } => "text-overwrite-bytes",
             TokFault::TextStdAlphabetAt { .. } => "text-std-alphabet-at",
+            TokFault::TextInsertInPayload { .. } => "text-insert-in-payload",
             TokFault::TextReplaceBack { .. } => "text-replace-tail",
             TokFault::TextDropBack { .. } => "text-drop-tail",
             TokFault::TextRemoveRange { .. } => "text-remove-range",
